@@ -33,6 +33,7 @@ EXPLANATION += (" R-C14-6: np.histogram / np.histogram2d in LoadCollective.range
 EXPLANATION += (" R-C14-7 (memo rule): no caching decorator or unreset memo attribute in the collective / histogram accessor classes, including writes by the owner object into its implementation object (use_class_left/right set _impl._class_location). R-C14-8: the class counts returned by np.histogram / np.histogram2d reach the returned series without integer coercion or rounding (astype(int...), int(), floor/round, //, dtype=int).")
 EXPLANATION += (" R-C14-9: the validity tests of a binning do not use is_monotonic_decreasing as a stand-in for 'not increasing' (pandas reports an index of one class as both), so single-class target binnings are accepted.")
 EXPLANATION += (' R-C14-10: no absolute tolerance on loads, class widths, overlaps or cycle counts in the collective and histogram modules (np.isclose / allclose with an absolute part, rounding to fixed digits, comparison with or addition of a small fixed number); zero instances expected, built-in example with one instance of each kind.')
+EXPLANATION += (' R-C14-11 (shared with R-C13-9): the two results of a broadcast in scale / shift stay paired - neither is re-ordered on its own before they are combined row by row.')
 ASSUMPTIONS = ["DataFrame.max(axis=1)/min(axis=1) over the two columns is the row-wise max/min", "range >= 0",
                "pandas reports an index of a single element as is_monotonic_increasing and is_monotonic_decreasing"]
 
@@ -161,6 +162,15 @@ def run(ctx):
     ctx.attempt(_r8)
     ctx.attempt(_r9)
     ctx.attempt(_r10)
+    ctx.attempt(_r11)
+
+
+def _r11(ctx):
+    """R-C14-11 (shared with R-C13-9): scale / shift combine the class edges of the broadcast histogram with the broadcast
+    operand row by row; neither result of the broadcast is re-ordered on its own."""
+    from .c13 import paired_results_rule
+    paired_results_rule(ctx, "R-C14-11", ["pylife.stress.collective.load_collective", "pylife.stress.collective.load_histogram",
+                                         "pylife.stress.collective.abstract_load_collective"])
 
 
 def _r10(ctx):
